@@ -153,6 +153,7 @@ class FunctionVC:
             bindings[pname] = v
             kwargs[pname] = v
         bindings['integral'] = (I.chips == 'int')
+        bindings['warnings_are_errors'] = I.warn_flag
         bindings['a'] = tuple(self.sym_args[nm] for nm in getattr(ccls, 'argnames', ()) if nm in self.sym_args)
         ctx0.assume(And_(*wf))
         if self.setup is not None:
